@@ -18,7 +18,16 @@ VARIABLES id, l
 tvars == <<id, l>>
 
 Tr == Traces[id].ev
-EvAt(k) == IF k <= Len(Tr) THEN Tr[k] ELSE [ev |-> "none", rule |-> "", pos |-> 0, ok |-> TRUE, kind |-> "", v |-> None]
+EvAt(k) == IF k <= Len(Tr) THEN Tr[k] ELSE [ev |-> "none", rule |-> "", pos |-> 0, ok |-> TRUE, kind |-> "", v |-> None, arg |-> None]
+
+\* Oracle actions (Cfg.act = "oracle": the parse ran with an arbitrary semantics object).  Every call of the semantic action is logged
+\* as [ev |-> "act", rule, arg (the node handed to the action), ok, v (its result)] between the body's events and the rule's
+\* outcome event.  The machine must hand the action exactly `arg`; the action's result is taken from the event.
+Oracle == Cfg.act = "oracle"
+HasAct(name) == Oracle /\ ret.k = "ok" /\ ~(RuleRec(name).isname /\ IsKeyword(FoldFr(Top(fr))))
+Ov(name) == IF HasAct(name) THEN [use |-> TRUE, ok |-> EvAt(l).ok, v |-> EvAt(l).v] ELSE NoOv
+ActOK(name) == HasAct(name) => (EvAt(l).ev = "act" /\ EvAt(l).rule = name /\ VEq(EvAt(l).arg, CstFinal(FoldFr(Top(fr)))))
+OutAt(name) == IF HasAct(name) THEN l + 1 ELSE l
 
 TraceInit == /\ \E i \in 1..Len(Traces) :
                   /\ id = i /\ G = Traces[i].g /\ Cfg = Traces[i].cfg /\ Inp = Traces[i].inp
@@ -28,7 +37,7 @@ TraceInit == /\ \E i \in 1..Len(Traces) :
              /\ TLCSet(2, [i \in 1..Len(Traces) |-> 0])
 
 Silent(A) == A /\ l' = l
-MatchOps == {"tok", "pat", "dot", "const", "meta"}
+MatchOps == {"tok", "pat", "opat", "dot", "const", "meta"}
 
 TLeaf == /\ Leaf
          /\ IF TopK.e.op \in MatchOps
@@ -52,19 +61,21 @@ TCallEnter == /\ CallEnter
                             THEN EvAt(l + 1).ev = "ok" /\ EvAt(l + 1).pos = Top(fr').pos /\ VEq(EvAt(l + 1).v, ret'.v)
                             ELSE EvAt(l + 1).ev = "fail"
 
-TCallExit == /\ CallExit
-             /\ EvAt(l).rule = TopK.e.name
-             /\ IF ret'.k = "ok" THEN EvAt(l).ev = "ok" /\ EvAt(l).pos = Top(fr').pos /\ VEq(EvAt(l).v, ret'.v)
-                ELSE EvAt(l).ev = "fail"
-             /\ l' = l + 1
+TCallExit == LET name == TopK.e.name  o == OutAt(name) IN
+             /\ CallExitW(Ov(name)) /\ ActOK(name)
+             /\ EvAt(o).rule = name
+             /\ IF ret'.k = "ok" THEN EvAt(o).ev = "ok" /\ EvAt(o).pos = Top(fr').pos /\ VEq(EvAt(o).v, ret'.v)
+                ELSE EvAt(o).ev = "fail"
+             /\ l' = o + 1
 
-\* a growth round that continues is silent; the round that stops delivers the outer rule's outcome event
-TGrowStep == /\ GrowStep
-             /\ IF ret' = NoRet THEN l' = l
-                ELSE /\ EvAt(l).rule = TopK.e.name
-                     /\ IF ret'.k = "ok" THEN EvAt(l).ev = "ok" /\ EvAt(l).pos = Top(fr').pos /\ VEq(EvAt(l).v, ret'.v)
-                        ELSE EvAt(l).ev = "fail"
-                     /\ l' = l + 1
+\* a growth round that continues is silent (but for its action call); the round that stops delivers the outer rule's outcome event
+TGrowStep == LET name == TopK.e.name  o == OutAt(name) IN
+             /\ GrowStepW(Ov(name)) /\ ActOK(name)
+             /\ IF ret' = NoRet THEN l' = o
+                ELSE /\ EvAt(o).rule = name
+                     /\ IF ret'.k = "ok" THEN EvAt(o).ev = "ok" /\ EvAt(o).pos = Top(fr').pos /\ VEq(EvAt(o).v, ret'.v)
+                        ELSE EvAt(o).ev = "fail"
+                     /\ l' = o + 1
 
 \* repeat() executes cut() after every separator: the only step of a repetition that leaves an event
 TRepStep == /\ RepStep
